@@ -493,6 +493,52 @@ pub fn lex_spec() -> SetSpec {
     SetSpec { glr: true, ms: false, lm: false, go: Some(false), ..Default::default() }
 }
 
+/// C13 over the lexically ambiguous family: heads split per token alternative, empty reductions in front of them.
+fn judge_lex_spans(p: &Prepared, input: &str, rep: &mut Rep) {
+    let Some((_, dyg)) = &p.glr else { return };
+    let agj = p.g.to_json();
+    let case = |extra: Value| json!({"grammar": p.text, "ag": agj, "input": input, "lex": true, "extra": extra});
+    crate::rep::watchdog::set(|| case(json!(null)).to_string());
+    rep.count("evaluations", 1);
+    rep.count("lexical_family_inputs", 1);
+    dynp::set_step_limit(STEP_BUDGET);
+    let r = guarded(|| {
+        let mut out = vec![];
+        if let Ok(f) = dyg.glr_parse(input) {
+            // tree extraction weighs alternatives with the un-memoised solutions(): small forests only
+            if f.solutions() <= 64 {
+                for (i, t) in f.iter().enumerate() {
+                    let mut b = TreeBuilder::new();
+                    let tn: LTree = t.build::<_, dynp::St>(&mut b);
+                    let mut sc = SpanChk::new(input);
+                    sc.node(&tn);
+                    let e = sc.empties;
+                    out.push((i, count_nodes(&tn), e, sc.finish(), dynp::shown(&tn)));
+                }
+            }
+        }
+        out
+    });
+    let Ok(out) = r else {
+        rep.count("panic_or_step_budget_not_judged_here", 1);
+        return;
+    };
+    let n = out.len();
+    for (i, nodes, empties, errs, shown) in out {
+        rep.count("trees_checked", 1);
+        rep.count("nodes_checked", nodes as u64);
+        if empties > 0 {
+            rep.distinct("nontrivial", fnv(&format!("{}|glr|{}", p.text, input)));
+            if n >= 2 {
+                rep.distinct("lexically_ambiguous_inputs_with_empty_nonterminal", fnv(&format!("{}|{}", p.text, input)));
+            }
+        }
+        if !errs.is_empty() {
+            rep.violation("C13", &format!("lex-glr-span:{}:{}", fnv(&p.text), fnv(input)), &format!("GLR tree #{} (of {}): {}", i, n, errs.join("; ")), case(json!({"algo": "GLR", "tree": shown})));
+        }
+    }
+}
+
 pub fn judge_lex_input(p: &Prepared, input: &str, rep: &mut Rep) {
     let Some((dg, dyg)) = &p.glr else { return };
     let lat = lex_lattice(&p.g, input);
@@ -537,7 +583,7 @@ pub fn judge_lex_input(p: &Prepared, input: &str, rep: &mut Rep) {
     }
 }
 
-pub fn run_lex_grammar(g: &AG, wd: &Workdir, rep: &mut Rep, maxlen: usize, only: Option<&str>) {
+pub fn run_lex_grammar(g: &AG, wd: &Workdir, rep: &mut Rep, maxlen: usize, only: Option<&str>, prop: &str) {
     rep.count("grammars_generated", 1);
     if !g.glr_scope() {
         rep.count("grammars_out_of_scope", 1);
@@ -553,15 +599,183 @@ pub fn run_lex_grammar(g: &AG, wd: &Workdir, rep: &mut Rep, maxlen: usize, only:
     let Ok(dy) = Dyn::new(&d, spec.dyn_cfg()) else { return };
     rep.count("grammars_in_scope", 1);
     let p = Prepared { g: g.clone(), text, cyclic: false, glr_scope: true, glr: Some((d, dy)), lr: vec![], lex: true, family: 0 };
+    let judge = |p: &Prepared, i: &str, rep: &mut Rep| if prop == "C13" { judge_lex_spans(p, i, rep) } else { judge_lex_input(p, i, rep) };
     match only {
-        Some(i) => judge_lex_input(&p, i, rep),
+        Some(i) => judge(&p, i, rep),
         None => {
             for input in crate::c06::all_inputs(&['a', 'b', 'c', ' '], maxlen) {
-                judge_lex_input(&p, &input, rep);
+                if prop == "C13" && input.contains(' ') {
+                    // multi-line variant: line/column bookkeeping across the split heads
+                    judge(&p, &input.replace(' ', "\n  "), rep);
+                } else {
+                    judge(&p, &input, rep);
+                }
             }
         }
     }
     rep.sample(json!({"grammar_name": "lexically ambiguous family (all lexical strategies off)", "grammar": p.text}));
+}
+
+// ---------------------------------------------------------------- C07: content tokens that are also the start of layout
+
+/// Pure LR/GLR differential (no reference tokenisation is needed): a content terminal is `/` or `*` while the
+/// Layout rule has `//` and `/* */` comments, and the inputs put them next to each other without whitespace.
+fn judge_overlap_input(p: &Prepared, input: &str, rep: &mut Rep) {
+    let Some((_, dyg)) = &p.glr else { return };
+    let agj = p.g.to_json();
+    let case = |extra: Value| json!({"grammar": p.text, "ag": agj, "family": p.family, "input": input, "overlap": true, "extra": extra});
+    let sig = |kind: &str| format!("overlap-{}:{}:{}", kind, fnv(&p.text), fnv(input));
+    crate::rep::watchdog::set(|| case(json!(null)).to_string());
+    rep.count("evaluations", 1);
+    rep.count("overlap_family_inputs", 1);
+    let mut lr: Vec<(u8, Option<String>)> = vec![];
+    for side in &p.lr {
+        dynp::set_step_limit(STEP_BUDGET);
+        match guarded(|| side.dy.lr_parse(input)) {
+            Err(_) => {
+                rep.count("panic_or_step_budget_not_judged_here", 1);
+                return;
+            }
+            Ok(Err(_)) => lr.push((side.table, None)),
+            Ok(Ok(t)) => {
+                let mut s = String::new();
+                render_norm(&t, &mut s);
+                lr.push((side.table, Some(s)));
+            }
+        }
+    }
+    dynp::set_step_limit(STEP_BUDGET);
+    let r = guarded(|| {
+        dyg.glr_parse(input).map_err(|e| err_info(&e).0.map(|sp| sp.start.pos)).map(|f| {
+            let sol = f.solutions();
+            let tree = if sol == 1 {
+                let mut b = TreeBuilder::new();
+                let t: LTree = f.get_first_tree().unwrap().build::<_, dynp::St>(&mut b);
+                let mut s = String::new();
+                render_norm(&t, &mut s);
+                Some(s)
+            } else {
+                None
+            };
+            (sol, tree)
+        })
+    });
+    let Ok(glr_full) = r else {
+        rep.violation("C07", &sig("glr-panic"), "GLR parser panicked or exceeded the step budget where LR returned", case(json!(null)));
+        return;
+    };
+    let glr_err_at = glr_full.as_ref().err().cloned().flatten();
+    let glr = glr_full.ok();
+    // The LR parser fetches the look-ahead again after every reduction (context-aware lexing in the new state); the GLR
+    // parser keeps the token it found before the reductions. Listed finding C07 glr-no-relex: recognised by the
+    // mechanism, not by the input - the LR run lexes one position twice with different outcomes.
+    let relex_positions = |side: &LrSide| -> Vec<usize> {
+        let lay = dynp::layout_states(&side.dump);
+        dynp::set_step_limit(STEP_BUDGET);
+        let calls = guarded(|| side.dy.lr_parse_traced(input).1).unwrap_or_default();
+        let mut first: std::collections::BTreeMap<usize, Vec<u16>> = Default::default();
+        let mut div = vec![];
+        for (pos, st, kinds) in calls {
+            if lay.contains(&(st as usize)) {
+                continue;
+            }
+            match first.get(&pos) {
+                None => {
+                    first.insert(pos, kinds);
+                }
+                Some(k) => {
+                    if *k != kinds && !div.contains(&pos) {
+                        div.push(pos);
+                    }
+                }
+            }
+        }
+        div
+    };
+    for (side, (tt, lt)) in p.lr.iter().zip(lr.iter()) {
+        rep.count("lr_glr_compared", 1);
+        let disagree = |rep: &mut Rep, kind: &str, what: String| {
+            let div = relex_positions(side);
+            // GLR rejecting: its error must sit where the kept look-ahead stopped fitting, i.e. at a re-lexed offset
+            let explained = !div.is_empty() && (kind != "glr-rejects-lr-accepts" || glr_err_at.is_some_and(|e| div.contains(&e)));
+            if !explained {
+                rep.violation("C07", &sig(kind), &what, case(json!({"relex_offsets": div, "glr_error_offset": glr_err_at})));
+            } else {
+                rep.count("known_glr_no_relex_disagreements", 1);
+                rep.violation("C07", "glr-no-relex", &format!("{} (the LR run lexed offset(s) {:?} again after a reduction with a different outcome)", what, div), case(json!({"relex_offsets": div})));
+            }
+        };
+        match (lt, &glr) {
+            (None, None) => rep.count("overlap_rejected_by_both", 1),
+            (Some(_), None) => disagree(rep, "glr-rejects-lr-accepts", format!("LR({}) accepts but GLR rejects", table_name(*tt))),
+            (None, Some(_)) => disagree(rep, "lr-rejects-glr-accepts", format!("GLR accepts but LR({}) rejects", table_name(*tt))),
+            (Some(ls), Some((sol, gt))) => {
+                rep.count("overlap_accepted_by_both", 1);
+                if *sol != 1 {
+                    disagree(rep, "glr-solutions", format!("GLR reports {} solutions for a deterministic grammar", sol));
+                } else if gt.as_ref() != Some(ls) {
+                    disagree(rep, "trees-differ", format!("LR({}) and GLR trees differ: {} vs {}", table_name(*tt), ls, gt.as_deref().unwrap_or("")));
+                } else if input.contains("//") || input.contains("/*") {
+                    rep.distinct("nontrivial", fnv(&format!("{}|{}", p.text, input)));
+                    rep.distinct("overlap_accepted_inputs_with_comment_opener", fnv(&format!("{}|{}", p.text, input)));
+                }
+            }
+        }
+    }
+}
+
+pub fn run_overlap_grammar(g0: &AG, wd: &Workdir, rep: &mut Rep, rng: &mut crate::rng::Rng, only: Option<(&str, u8)>) {
+    let (g, family) = match only {
+        Some((_, f)) => (g0.clone(), f),
+        None => {
+            let mut g = g0.clone();
+            let k = rng.below(g.terms.len());
+            g.terms[k].rec = Rec::Lit("/".into());
+            if g.terms.len() > 1 && rng.chance(0.4) {
+                let j = (k + 1 + rng.below(g.terms.len() - 1)) % g.terms.len();
+                g.terms[j].rec = Rec::Lit("*".into());
+            }
+            (g, *rng.pick(&[2u8, 3, 3, 4, 6]))
+        }
+    };
+    rep.count("grammars_generated", 1);
+    let Some(p) = prepare(&g, wd, rep, "C07", family) else { return };
+    if !in_scope_for(&p, "C07") {
+        rep.count("grammars_out_of_scope", 1);
+        return;
+    }
+    rep.count("grammars_in_scope", 1);
+    rep.count("overlap_family_grammars", 1);
+    if let Some((input, _)) = only {
+        judge_overlap_input(&p, input, rep);
+        return;
+    }
+    let mut alpha: Vec<String> = g.terms.iter().filter_map(|t| if let Rec::Lit(l) = &t.rec { Some(l.clone()) } else { None }).collect();
+    for x in [" ", "\n", "/", "*", "x"] {
+        if !alpha.iter().any(|a| a == x) {
+            alpha.push(x.to_string());
+        }
+    }
+    let mut inputs: Vec<String> = vec![String::new()];
+    let mut cur = vec![String::new()];
+    for _ in 0..4 {
+        let mut next = vec![];
+        for s in &cur {
+            for a in &alpha {
+                next.push(format!("{}{}", s, a));
+            }
+        }
+        inputs.extend(next.iter().cloned());
+        cur = next;
+    }
+    for _ in 0..600 {
+        let n = rng.range(5, 9);
+        inputs.push((0..n).map(|_| alpha[rng.below(alpha.len())].as_str()).collect());
+    }
+    for input in inputs {
+        judge_overlap_input(&p, &input, rep);
+    }
+    rep.sample(json!({"grammar_name": "content token that is also the start of layout", "grammar": p.text}));
 }
 
 /// into_iter() consumes the forest, so it needs its own parse.
@@ -724,10 +938,13 @@ pub fn main(a: &Args) {
         let o = if big { BnfOpts { max_nt: 5, max_t: 4, max_alts: 3, max_len: 4, ..opts } } else { opts };
         let g = if i % 5 == 3 { gen_ctx(&mut rng) } else { gen_bnf(&mut rng, &o) };
         i += 1;
-        if prop == "C03" && i % 4 == 1 && g.reduced() {
+        if (prop == "C03" && i % 4 == 1 || prop == "C13" && i % 8 == 1) && g.reduced() {
             let mut lg = g.clone();
             lexify(&mut lg, &mut rng);
-            run_lex_grammar(&lg, &wd, &mut rep, if a.thorough { 6 } else { 5 }, None);
+            run_lex_grammar(&lg, &wd, &mut rep, if a.thorough { 6 } else { 5 }, None, prop);
+        }
+        if prop == "C07" && i % 6 == 2 && g.reduced() {
+            run_overlap_grammar(&g, &wd, &mut rep, &mut rng, None);
         }
         if !g.reduced() {
             rep.count("grammars_not_reduced", 1);
@@ -752,7 +969,12 @@ fn replay(path: &str, wd: &Workdir, rep: &mut Rep, prop: &str) {
     let case = &v["case"];
     let g = AG::from_json(&case["ag"]);
     if case["lex"].as_bool() == Some(true) {
-        run_lex_grammar(&g, wd, rep, 5, case["input"].as_str());
+        run_lex_grammar(&g, wd, rep, 5, case["input"].as_str(), prop);
+        return;
+    }
+    if case["overlap"].as_bool() == Some(true) {
+        let mut rng = crate::rng::Rng::new(0);
+        run_overlap_grammar(&g, wd, rep, &mut rng, Some((case["input"].as_str().unwrap_or(""), case["family"].as_u64().unwrap_or(0) as u8)));
         return;
     }
     let p = prepare(&g, wd, rep, prop, case["family"].as_u64().unwrap_or(0) as u8).unwrap();
